@@ -125,4 +125,30 @@ def call (sqrt : α → α) (fn : Fn) (data : Data α) (pos : List (Scale.Arg α
   | .center => centerCall sqrt data pos kw st
   | .standardize => standardizeCall sqrt data pos kw st
 
+/-! ### the type that carries a written argument
+
+`scale` decides between "flag" and "number" by the TYPE of the argument.  A boolean arrives as a Python
+`bool`, or as a numpy boolean (`numpy.bool_` scalar — what `numpy.any(...)`, a comparison of numpy scalars …
+return — or a 0-d boolean array); scale.py normalises the latter to a Python `bool` before the test
+(`_as_flag`), so both are flags.  Everything else (Python `int` / `float`, numpy integer / floating scalar,
+0-d numeric array) is a number: `numpy.array(value)`. -/
+
+/-- an argument as it is handed over -/
+inductive Written (α : Type)
+  | pyBool (b : Bool)     -- Python `True` / `False`
+  | npBool (b : Bool)     -- `numpy.bool_(b)` or `numpy.array(b)` (0-d, boolean)
+  | number (v : α)        -- any numeric type holding the number `v`
+deriving Repr
+
+/-- scale.py `_as_flag` followed by the `isinstance(·, bool)` tests of the body -/
+def Written.toArg : Written α → Scale.Arg α
+  | .pyBool b => .flag b
+  | .npBool b => .flag b
+  | .number v => .value v
+
+/-- the entry points on arguments as they are handed over -/
+def callWritten (sqrt : α → α) (fn : Fn) (data : Data α) (pos : List (Written α))
+    (kw : List (String × Written α)) (st : Scale.State α) : Except Err (List α × Scale.State α) :=
+  call sqrt fn data (pos.map Written.toArg) (kw.map fun (k, a) => (k, a.toArg)) st
+
 end FormulaicVerif.Model.ScaleEntry
